@@ -52,8 +52,9 @@ pub fn be_packet(datagram: &mut BytesMut, dcid_len: usize) -> Result<Packet, Err
         _ => unreachable!("parsing packet type never generates failure"),
     })?;
     let (remain, header) = be_header(pkty, dcid_len, remain).map_err(|e| match e {
-        ne @ nom::Err::Incomplete(_) => Error::IncompleteHeader(pkty, ne.to_string()),
-        _ => unreachable!("parsing packet header never generates error or failure"),
+        // a truncated header, or a malformed one (e.g. a connection id length above 20 in a long
+        // header): the datagram is dropped
+        ne => Error::IncompleteHeader(pkty, ne.to_string()),
     })?;
     match header {
         Header::VN(header) => {
